@@ -99,9 +99,21 @@ class Merge(Expr):
             predicate_columns = self._predicate_columns(predicate)
             if predicate_columns is None:
                 return False
-            if predicate_columns.issubset(self.left.columns):
+            # A name shared by both inputs belongs, un-suffixed, to the side whose
+            # suffix is empty (the same test ``_simplify_up`` uses to pick the input
+            # that receives the filter)
+            left_suffix, right_suffix = self.suffixes[0], self.suffixes[1]
+            renamed_left = left_suffix != "" and any(
+                f"{col}{left_suffix}" in self.columns and col in self.right.columns
+                for col in predicate_columns
+            )
+            renamed_right = right_suffix != "" and any(
+                f"{col}{right_suffix}" in self.columns and col in self.left.columns
+                for col in predicate_columns
+            )
+            if predicate_columns.issubset(self.left.columns) and not renamed_left:
                 return self.how in ("left", "inner", "leftsemi")
-            elif predicate_columns.issubset(self.right.columns):
+            elif predicate_columns.issubset(self.right.columns) and not renamed_right:
                 return self.how in ("right", "inner")
             elif len(predicate_columns) > 0:
                 return False
